@@ -241,7 +241,7 @@ def check_logs(w, rep, tier):
                         "SE_2(3) log does not apply the inverse left Jacobian of the rotation log to p and v in algebra order")
     # ---- direct products: factors whose group and algebra dimensions differ (quaternion 4/3) come first, so that an
     # offset table built from the wrong dimension shows; three factors, so that a non-cumulative table shows
-    for names in (["SO3Mrp", "R3"], ["SO3Quat", "R3"], ["SE2", "SO3Quat", "R3"]):
+    for names in (["SO3Mrp", "R3"], ["SO3Quat", "R3"], ["SE2", "SO3Quat", "R3"], ["SO3Mrp", "SO3Mrp"]):
         label = "*".join(names)
         G = w.G(names[0])
         for nm in names[1:]:
